@@ -22,7 +22,7 @@ from harness.common import call, is_error, abstract_child, bits_of, mk_slice
 TICKED = {
     ('pytoniq_core.boc.cell', 'Cell.order'), ('pytoniq_core.boc.cell', 'Cell.to_boc'), ('pytoniq_core.boc.cell', 'Cell.serialize'),
     ('pytoniq_core.boc.cell', 'Cell.calculate_hashes'), ('pytoniq_core.boc.cell', 'Cell.resolve_mask'),
-    ('pytoniq_core.boc.cell', 'Cell.get_representation'),
+    ('pytoniq_core.boc.cell', 'Cell.get_representation'), ('pytoniq_core.boc.cell', 'Cell.__eq__'), ('pytoniq_core.boc.cell', 'Cell.__hash__'),
     ('pytoniq_core.boc.deserialize', 'Boc.deserialize'), ('pytoniq_core.boc.deserialize', 'Boc.deserialize_cell'),
     ('pytoniq_core.boc.deserialize', 'Boc.deserialize_boc_header'),
     ('pytoniq_core.tl.generator', 'TlSchemas.deserialize'), ('pytoniq_core.tl.generator', 'TlSchemas.serialize_field'),
@@ -378,6 +378,78 @@ def _schemas(G):
     if not _SCH:
         _SCH.append(G.TlGenerator.with_default_schemas().generate())
     return _SCH[0]
+
+
+@obligation('C19.twins', 'C19', kind='bounded', samples=12,
+            fuc=[C + 'order', C + 'to_boc', C + '__eq__', C + '__hash__', 'pytoniq_core.boc.deserialize.Boc.deserialize'],
+            descr='bounded, native, ghost counters: a DAG that holds every cell twice as two EQUAL but DISTINCT objects, cross-wired '
+                  '(a_j = [a_{j-1}, b_{j-1}], b_j = [b_{j-1}, a_{j-1}], depth 12..60; built directly, and parsed from a bag that lists '
+                  'every cell twice): comparing the twins, ordering, serialising and re-parsing perform a number of Cell.__eq__ / '
+                  '__hash__ calls and loop iterations linear in cells + references (equality that walks the shared sub-DAG once per '
+                  'path is exponential here although two references to the very same object stay cheap)')
+def twins(w):
+    from pytoniq_core.boc.cell import Cell
+    from pytoniq_core.boc.builder import Builder
+    rng = w.rng
+    d = rng.choice([12, 25, 40, 60])
+    a = Builder().store_uint(1, 8).end_cell()
+    b = Builder().store_uint(1, 8).end_cell()
+    for i in range(d):
+        a, b = (Builder().store_uint(i & 255, 8).store_ref(a).store_ref(b).end_cell(),
+                Builder().store_uint(i & 255, 8).store_ref(b).store_ref(a).end_cell())
+    root = Builder().store_ref(a).store_ref(b).end_cell()
+    n_obj, e_obj = 2 * (d + 1) + 1, 4 * d + 2
+    cap = 40 * (n_obj + e_obj) + 2000
+    w.used['depth'] = d
+
+    def total():
+        return sum(v for k, v in loader.GLOBAL_TICKS.items() if k.startswith('Cell.'))
+    steps = [('a == b', lambda: a == b), ('hash(a) == hash(b)', lambda: hash(a) == hash(b)), ('order', lambda: root.order()),
+             ('to_boc', lambda: root.to_boc()), ('set of both twins', lambda: len({a, b}))]
+    data = None
+    for nm, fn in steps:
+        loader.GLOBAL_TICKS.clear()
+        kk, r = _capped(fn, (), cap)
+        w.claim(f'{nm}: work linear in cells + references (depth {d}: {total()} ticks, cap {4 * cap + 1000})', kk != 'cap')
+        if kk == 'cap':
+            return
+        w.claim(f'{nm}: does not raise ({r if kk == "raise" else ""})', kk == 'ok')
+        if nm == 'to_boc' and kk == 'ok':
+            data = r
+        if nm == 'a == b' and kk == 'ok':
+            w.claim('the twins are equal', r is True)
+    # a bag that lists every cell twice (a conforming encoder need not merge equal cells): parse, then serialise the parsed DAG
+    from vf.spec import boc as SB_
+    bag = _twin_bag(d)
+    loader.GLOBAL_TICKS.clear()
+    kk, r = _capped(Cell.one_from_boc, (bag,), cap)
+    w.claim(f'parse of a {len(bag)}-byte bag listing every cell twice: work linear ({total()} ticks)', kk != 'cap')
+    if kk != 'ok':
+        w.claim(f'the bag parses ({r})', kk == 'cap')
+        return
+    loader.GLOBAL_TICKS.clear()
+    k2, r2 = _capped(r.to_boc, (), cap)
+    w.claim(f're-serialising the parsed twin DAG: work linear ({total()} ticks)', k2 != 'cap')
+    if k2 == 'ok':
+        w.claim('re-serialised bag parses to the same root', Cell.one_from_boc(r2).hash == r.hash)
+
+
+def _twin_bag(d):
+    """serialized_boc (generic magic, no index) of: root -> [a_d, b_d]; a_j -> [a_{j-1}, b_{j-1}], b_j -> [b_{j-1}, a_{j-1}]; a_0, b_0
+    leaves with equal data.  Cells numbered root=0, a_j = 1 + 2*(d-j), b_j = 2 + 2*(d-j)."""
+    n = 2 * (d + 1) + 1
+    ia = lambda j: 1 + 2 * (d - j)
+    ib = lambda j: 2 + 2 * (d - j)
+    cells = [bytes([2, 0, ia(d), ib(d)])]
+    for j in range(d, 0, -1):
+        cells.append(bytes([2, 2, (j - 1) & 255, ia(j - 1), ib(j - 1)]))
+        cells.append(bytes([2, 2, (j - 1) & 255, ib(j - 1), ia(j - 1)]))
+    cells.append(bytes([0, 2, 1]))
+    cells.append(bytes([0, 2, 1]))
+    payload = b''.join(cells)
+    off = 2 if len(payload) > 255 else 1
+    assert n < 256
+    return bytes.fromhex('b5ee9c72') + bytes([1, off, n, 1, 0]) + len(payload).to_bytes(off, 'big') + bytes([0]) + payload
 
 
 def _capped(fn, args, cap):
